@@ -357,6 +357,11 @@ func (fr *frame) visit(instr ssa.Instruction) cont {
 	case *ssa.Send:
 		st.chanSend(fr.get(in.Chan).(*Chan), copyVal(fr.get(in.X)))
 	case *ssa.Store:
+		if st.trackFootprint {
+			if g := addrRootGlobal(in.Addr, 0); g != "" {
+				st.footprint[g] = true
+			}
+		}
 		st.storeThrough(fr.get(in.Addr), fr.get(in.Val))
 	case *ssa.If:
 		c := fr.get(in.Cond).(*Term)
@@ -420,6 +425,11 @@ func (fr *frame) visit(instr ssa.Instruction) cont {
 	case *ssa.Lookup:
 		fr.set(in, st.lookup(in, fr.get(in.X), fr.get(in.Index)))
 	case *ssa.MapUpdate:
+		if st.trackFootprint {
+			if g := addrRootGlobal(in.Map, 0); g != "" {
+				st.footprint[g] = true
+			}
+		}
 		m := fr.get(in.Map).(*Map)
 		if m == nil {
 			panic(&goPanic{Val: Iface{T: runtimeErrorType, V: "assignment to entry in nil map"}, Kind: "nil", Msg: "assignment to entry in nil map"})
@@ -980,4 +990,36 @@ func posStr(st *State, p token.Pos) string {
 		return s[i+1:]
 	}
 	return s
+}
+
+// addrRootGlobal follows an address (or a reference value) back through field/index/slice
+// steps; if it is rooted in a package-level variable - directly, or through a pointer, slice
+// or map loaded from one - the variable's name is returned.
+func addrRootGlobal(v ssa.Value, depth int) string {
+	if depth > 12 {
+		return ""
+	}
+	switch x := v.(type) {
+	case *ssa.Global:
+		return x.Pkg.Pkg.Path() + "." + x.Name()
+	case *ssa.FieldAddr:
+		return addrRootGlobal(x.X, depth+1)
+	case *ssa.IndexAddr:
+		return addrRootGlobal(x.X, depth+1)
+	case *ssa.Slice:
+		return addrRootGlobal(x.X, depth+1)
+	case *ssa.ChangeType:
+		return addrRootGlobal(x.X, depth+1)
+	case *ssa.UnOp:
+		if x.Op == token.MUL { // a pointer / slice / map loaded from memory
+			return addrRootGlobal(x.X, depth+1)
+		}
+	case *ssa.Phi:
+		for _, e := range x.Edges {
+			if g := addrRootGlobal(e, depth+1); g != "" {
+				return g
+			}
+		}
+	}
+	return ""
 }
